@@ -3,6 +3,62 @@ import json, os
 VERIF = os.path.dirname(os.path.dirname(os.path.abspath(__file__)))
 
 CHECKS = {
+    "C01": dict(
+        category="model_checking",
+        text="FlowTyping.tla generates programs of a small typed fragment token by token and checks them with a transcription of binder.py and "
+             "the narrowing / compatibility rules (one TLC action per statement the real checker visits), then executes every accepted program "
+             "on all inputs: invariants MemberOK, RevealOK, ReachOK, NoWrong. Every emitted program is rendered as Python with probes at every "
+             "program point: (i) real mypy's reveal_type / type map / reachability / error positions must equal Gamma (binding; a mismatch is "
+             "model drift, exit 2 above 1 %), (ii) CPython runs every accepted function on every argument class and every tree of opaque "
+             "condition outcomes with a recording probe (the oracle), (iii) single-edit ill-typed perturbations that fail at run time must be "
+             "rejected by mypy. Five spec-level mutants are rejected; the finding config reproduces the (now repaired) truthiness-join defect.",
+        design_ref="DESIGN.md 5.C01, notes/C01.md",
+        note="flow-sensitive narrowing / join / call-compatibility core only: classes with final leaves, unions with None, isinstance / is None / "
+             "truthiness / class-pattern narrowing, assignment, if/else, while, break/continue/return, call, method call; exhaustive to 3 statements "
+             "per slice, simulated programs to 7; generics, containers, protocols, operators, try/for/with are outside the model",
+        technique="TLA+ spec (FlowTyping.tla: binder transcription + concrete semantics) model-checked with TLC; every emitted program replayed into real mypy (binding) and executed under CPython (oracle)",
+    ),
+    "C05": dict(
+        category="exploration",
+        text="Differential vs CPython of TLC-generated programs for three mechanisms only: structured control flow (CtrlFlow.tla: try / except / "
+             "else / finally x return / break / continue / raise / bare raise x loops x nested calls, as a control-stack machine with a pending "
+             "completion), wrapper argument binding (ArgBind.tla) and method / property resolution on native classes and traits (Dispatch.tla over "
+             "C3.tla). TLC emits behaviours with their expected traces; each is validated against CPython (drift = machinery failure) and replayed "
+             "into mypyc-compiled extension modules built from the working tree; death of the child running compiled code is a violation.",
+        design_ref="DESIGN.md 5.C05, notes/C05.md",
+        note="the rest of C05 (expressions, container primitives, generators, async, attributes) is not reached by the specification; programs "
+             "mypyc rejects are excluded and counted (compile_rejected); quick builds -O0 single group, thorough -O0/-O3 x single / multi_file / "
+             "separate; four known findings (bare raise without active exception, super() bound statically through traits, positional-only "
+             "parameters accepted as keywords, TypeError wording)",
+        technique="TLA+ operational semantics / binding / dispatch specs; TLC-emitted programs validated against CPython and replayed into mypyc-compiled extensions",
+    ),
+    "C08": dict(
+        category="model_checking",
+        text="Lattice.tla defines the universe of type terms (TLC emits terms, class declarations and union item lists) and states the laws - "
+             "reflexivity, transitivity on Any-free terms, proper implies subtype, join / meet bounds in both argument orders, simplification "
+             "equivalent under every permutation - as invariants over relation tables computed by the REAL is_subtype, is_proper_subtype, "
+             "is_same_type, join_types, meet_types, make_simplified_union on types analysed by a real build; every violation is re-confirmed on a "
+             "fresh build and delta-minimised to a shape key. SubtypeCache.tla models typestate.py's memo (kind key, recordings, resets): TLC checks "
+             "AnswerIsTruth on tables extracted with empty caches, rejects three key mutants and emits query / reset behaviours that are replayed "
+             "on the real type_state, comparing cache contents and answers after every step and after reset_all_subtype_caches().",
+        design_ref="DESIGN.md 5.C08, notes/C08.md",
+        note="depth 1 over 204 (quick) / 429 (thorough) terms + seeded depth-2 terms over clean dimensions; overloads, ParamSpec, TypeVarTuple not in "
+             "the universe; 38 known finding shapes from four root causes in join.py / meet.py (findings.d/C08.json)",
+        technique="TLA+ specs (Lattice.tla, SubtypeCache.tla) model-checked with TLC over observation tables from the real functions; TLC-generated cache behaviours replayed on the real type_state",
+    ),
+    "C18": dict(
+        category="model_checking",
+        text="ModuleMap.tla transcribes find_sources (crawl_up, find_sources_in_dir), compute_search_paths, FindModuleCache._find_module / "
+             "find_modules_recursive and load_graph's seeding; TLC checks RoundTrip, RoundTripFind, FindInvertsCrawl, order independence, "
+             "DIR-vs-files and DIR-vs--p over every tree of <=4 (quick) / <=8 (thorough) files from four 12-path universes x options x cwd x "
+             "mypy_path x target, and emits every world. Every world is replayed into the real functions (binding on listings, every find_module "
+             "result under every file order, the -p listing); the property is evaluated independently on the real results; sampled worlds go "
+             "through main.process_options + build.build and the real CLI (DIR vs FILES in two orders vs -p).",
+        design_ref="DESIGN.md 5.C18, notes/C18.md",
+        note="names are valid identifiers; no -stubs directories, py.typed or site-packages; no nested explicit bases; one known finding (three "
+             "keys): a module file beside a same-named directory without __init__ is dropped by `mypy DIR`",
+        technique="TLA+ spec (ModuleMap.tla) model-checked with TLC; every enumerated world replayed into real mypy (conformance + property on real results); CLI sample",
+    ),
     "C17": dict(
         category="model_checking",
         text="TLC checks, on Config.tla, that the transcription of process_options / build_per_module_cache / clone_for_module / compile_glob / "
